@@ -114,6 +114,24 @@ fn project_case(n: usize, p: &Project, wl: &[(String, Option<&str>)], sections: 
             got => a.viols.push(Viol { key: key("run-overwrite"), desc: format!("`asca run -o` over an existing longer file (answer y) left {:?} (exit {:?}), the library gives {:?}", got, o.code, w), case: case() }),
         }
     }
+    // (1c) `run -c <file>`: the comparison table printed next to an older word list still shows every result, whether that list is as long as the
+    // result, shorter or longer (the right-hand column is the library's answer, line by line)
+    if let Ok(w) = &want {
+        for (which, cmp_lines) in [("same-length", w.clone()), ("shorter", w.iter().take(w.len() / 2).cloned().collect::<Vec<_>>()), ("longer", { let mut v = w.clone(); v.push("xa.xa".into()); v.push("ko".into()); v })] {
+            a.evals += 1;
+            sb.write("cmp.wsca", &cmp_lines.join("\n"));
+            let mut args = vec!["run", "-r", "in.rsca", "-w", "in.wsca", "-c", "cmp.wsca"];
+            if sections != 0 { args.extend(["-l", "in.alias"]); }
+            let o = run_cli(&sb.dir, &args); a.procs += 1;
+            let body: Vec<&str> = o.stdout.lines().skip_while(|l| !l.contains("OUTPUT")).skip(1).collect();
+            // the table proper starts after the blank line that follows the header
+            let rows: Vec<&str> = if body.first().map(|l| l.trim().is_empty()).unwrap_or(false) { body[1..].to_vec() } else { body.clone() };
+            let printed: Vec<String> = rows.iter().map(|l| if l.trim().is_empty() { String::new() } else { l.rsplit_once('|').map(|x| x.1.trim().to_string()).unwrap_or_else(|| "<no separator>".into()) }).collect();
+            let n = w.len();
+            let ok = o.code == Some(0) && printed.len() >= n && printed.iter().take(n).zip(w.iter()).all(|(p, x)| p == x.trim()) && printed.len() == n.max(cmp_lines.len());
+            if ok { a.ok += 1; } else { a.viols.push(Viol { key: key(&format!("run-compare-{}", which)), desc: format!("`asca run -c` with a {} comparison file ({} lines for {} results) printed the right-hand column {:?} (exit {:?}), the library gives {:?}", which, cmp_lines.len(), n, printed, o.code, w), case: case() }); }
+        }
+    }
     // (2) conv asca == model
     a.evals += 1;
     let mut args = vec!["conv", "asca", "-w", "in.wsca", "-r", "in.rsca", "-o", "p.json"];
